@@ -1,6 +1,117 @@
-/-! line-protocol handlers (stub: filled in when the suite is built) -/
+import Apko.Model.Resolver
+/-! line-protocol handlers for corr:resolver / multiarch (C02, C14, C08) -/
 namespace Apko.Driver.Resolver
+open Apko Apko.Resolver
 
-def handle (_args : List String) : Option String := none
+/-- strings travel as `x<hex>`; lists are comma separated, the empty list is the empty field -/
+def str (s : String) : Text := unhex (s.toList.drop 1)
+def strList (s : String) : List Text := if s.isEmpty then [] else (s.splitOn ",").map str
+def enc (t : Text) : String := "x" ++ hexS t
+
+/-- consumes `n` packages (7 fields each) -/
+def readPkgs (pin uri : Text) : Nat → Nat → List String → Option (List Pkg × Nat × List String)
+  | 0, id, rest => some ([], id, rest)
+  | n + 1, id, name :: ver :: origin :: prio :: deps :: provs :: iif :: rest =>
+    match readPkgs pin uri n (id + 1) rest with
+    | some (ps, id', rest') =>
+      some (⟨id, str name, str ver, str origin, uri, pin, prio.toNat!, strList deps, strList provs,
+             strList iif⟩ :: ps, id', rest')
+    | none => none
+  | _, _, _ => none
+
+def readIndexes : Nat → Nat → List String → Option (Universe × Nat × List String)
+  | 0, id, rest => some ([], id, rest)
+  | n + 1, id, pin :: uri :: np :: rest =>
+    match readPkgs (str pin) (str uri) np.toNat! id rest with
+    | some (ps, id', rest') =>
+      match readIndexes n id' rest' with
+      | some (is, id'', rest'') => some (⟨str pin, str uri, ps⟩ :: is, id'', rest'')
+      | none => none
+    | none => none
+  | _, _, _ => none
+
+def readArchs : Nat → List String → Option (List (Text × Universe) × List String)
+  | 0, rest => some ([], rest)
+  | n + 1, arch :: ni :: rest =>
+    match readIndexes ni.toNat! 0 rest with
+    | some (u, _, rest') =>
+      match readArchs n rest' with
+      | some (as, rest'') => some ((str arch, u) :: as, rest'')
+      | none => none
+    | none => none
+  | _, _ => none
+
+def cfgOf (u : Universe) : Cfg :=
+  { u := u, order := ownNames u, bothBad := .eq, installIfFixed := true, addedOrder := id }
+
+def showRes : Res Resolution → String
+  | .err => "err"
+  | .outOfFuel => "out-of-fuel"
+  | .ok r => "ok " ++ ",".intercalate (r.install.map fun p => toString p.id) ++ "|" ++
+      ",".intercalate (r.conflicts.map enc)
+
+/-- Go's answer `ok id,id,...|...` → packages of the universe (unknown ids map to a dummy foreign pkg) -/
+def parseGo (u : Universe) (go : String) : Option (List Pkg) :=
+  if go.startsWith "ok " then
+    let body := ((go.drop 3).toString.splitOn "|").headD ""
+    let ids := if body.isEmpty then [] else (body.splitOn ",").map String.toNat!
+    some (ids.map fun i => (u.all.find? (·.id = i)).getD { (default : Pkg) with id := i })
+  else none
+
+def describe (t : String × Pkg × Text) : String :=
+  s!"{t.1}:{String.ofList t.2.1.name}:{String.ofList t.2.2}"
+
+/-- class of a failed validity check = the first unsound shortcut of the greedy algorithm that fired
+in the model's run on this input (ghost flags, see `Model/Resolver.lean`); `unlisted` when none fired:
+F02a de-dup by name dropped a package while a different package of that name is kept;
+F02b an install_if package was appended (its own dependencies are never resolved, filters bypassed);
+F02c the package's own provides skipped a dependency whose operator they do not satisfy;
+F02d the `selected` shortcut accepted a dependency the selected package does not satisfy;
+F02e the by-name cycle guard skipped the dependencies of a different version of an ancestor. -/
+def classOf (flags : List String) : String :=
+  match ["F02b", "F02c", "F02d", "F02e", "F02a"].find? (fun f => flags.contains f) with
+  | some f => f
+  | none => "unlisted"
+
+/-- C14 oracle: every member exists (name, version) on every other architecture -/
+def firstUnavailable (archs : List (Text × Universe)) (self : Text) (s : List Pkg) : Option (Pkg × Text) :=
+  s.findSome? fun p =>
+    (archs.find? fun (a, other) =>
+      a != self && !(other.all.any fun q => q.name = p.name && q.version = p.version)).map fun (a, _) => (p, a)
+
+def handle (args : List String) : Option String :=
+  match args with
+  | op :: world :: self :: narch :: rest =>
+    if op != "r.resolve" && op != "r.avail" then none else
+    match readArchs narch.toNat! rest with
+    | some (archs, [go]) =>
+      match lookupT archs (str self) with
+      | none => some "bad-arch\tfail:bad-arch\tunlisted"
+      | some u =>
+        let w := strList world
+        let dq0 := disqualifyDifference archs (str self)
+        let r := resolve (cfgOf u) w dq0
+        let flags := match r with | .ok x => x.flags | _ => []
+        let impl := showRes r
+        match parseGo u go with
+        | none =>
+          -- an error is always an admissible answer; differing answers on repeated runs are not (C08)
+          if go.startsWith "nondeterministic" then some (impl ++ "\tfail:nondeterministic\tunlisted")
+          else some (impl ++ "\tpass\t-")
+        | some s =>
+          if op = "r.resolve" then
+            -- C02 oracle: the verified validator on Go's output
+            match firstInvalid u w s with
+            | some t => some (impl ++ "\tfail:" ++ describe t ++ "\t" ++ classOf flags)
+            | none => some (impl ++ "\tpass\t-")
+          else
+            -- C14 oracle: availability of every member on every other architecture
+            match firstUnavailable archs (str self) s with
+            | some (p, a) => some (impl ++ "\tfail:unavailable:" ++ String.ofList p.name ++ "-" ++
+                String.ofList p.version ++ ":" ++ String.ofList a ++ "\t" ++
+                (if !p.installIf.isEmpty then "F14a" else "unlisted"))
+            | none => some (impl ++ "\tpass\t-")
+    | _ => some "bad-universe\tfail:bad-universe\tunlisted"
+  | _ => none
 
 end Apko.Driver.Resolver
